@@ -72,6 +72,33 @@ func exhaustiveC01(thorough bool, each func(s Script, label string) bool) {
 	}
 	me, n := shard()
 	count := 0
+	// v1 accepts an H that leaves priorities without a share - Rate even without an entry in the
+	// map when its remainder runs out early. One priority at a time is the only busy one, with more
+	// data than there are handlers, and releases follow.
+	for _, z := range []struct {
+		div string
+		ps  []uint
+		h   uint
+	}{{"rate", []uint{7, 5, 3, 1}, 8}, {"rate", []uint{3, 2, 1}, 2}, {"rate", []uint{5, 3, 1}, 4}, {"fair", []uint{3, 2, 1}, 2}, {"rate", []uint{7, 5, 3, 1}, 16}} {
+		for _, busy := range z.ps {
+			count++
+			if count%n != me {
+				continue
+			}
+			sc := Script{Ver: 1, Div: z.div, H: z.h, Epilogue: "normal"}
+			for _, p := range z.ps {
+				in := In{P: p, Cap: 8}
+				if p == busy {
+					in.Prefill = 3 * int(z.h)
+				}
+				sc.Ins = append(sc.Ins, in)
+			}
+			sc.Ops = []Op{{K: "D"}, {K: "FP", P: busy}, {K: "D"}, {K: "FM", Picks: []int{0, 1}}, {K: "D"}, {K: "W", P: z.ps[0], N: 2}, {K: "D"}}
+			if !each(sc, "exhaustive-zero-share") {
+				return
+			}
+		}
+	}
 	for _, c := range cfgs {
 		ok := sequences(alphabet, depth, func(seq []Op) bool {
 			count++
